@@ -57,7 +57,7 @@ BOUNDS = {
                     "arity1 1 row over D12"],
         "obsmask": "2-row screens (one plate / two plates): all 6^2 observation vectors x all plate-uniform masks; "
                    "3-row screen on plates p,q,p: 4^3 vectors x 4 masks; observations=None",
-        "superset": "sources: arity1 rows<=3 over S4, arity2 2 rows over S3; every non-empty sub-list",
+        "superset": "sources: arity1 rows<=3 over S4, arity2 2 rows over S3; every non-empty sub-list; every other case again with the supplied mappings' ids reversed and with their rows rotated",
         "holdout": "3 parents (3-4 rows), fractions 0, 0.5, 1, both hold-out functions, full choice tree",
         "names": "1-row screens over 8^3 name triples x 3 control names; 2-row screens over all 64 ordered name pairs (names incl. empty, CJK, trailing blank, decomposed and compatibility unicode)",
         "merged": "3-4 plate screens after one in-place Plate.merge (every ordered pair), then 3 save/load cycles",
@@ -104,6 +104,19 @@ def _ints(a):
     return (a.shape, tuple(vals) if vals is not None else ("non-integer", repr(a.tolist())))
 
 
+def _mappings(x):
+    """Both id mappings as RELATIONS (multisets of rows): which (name, dose) carries which id.  The order in which the rows
+    are listed is not part of the statement ("loading never renumbers anything")."""
+    tn, td, ti = (np.asarray(a) for a in x.treatment_mapping)
+    sn, si = (np.asarray(a) for a in x.sample_mapping)
+    shapes = (tn.shape, td.shape, ti.shape, sn.shape, si.shape)
+    t_rows = sorted(zip((str(v) for v in tn.ravel().tolist()), (float(v) for v in td.ravel().tolist()), (int(v) for v in ti.ravel().tolist()))) \
+        if tn.size == td.size == ti.size else ("ragged", _strs(tn), tuple(td.ravel().tolist()), _ints(ti))
+    s_rows = sorted(zip((str(v) for v in sn.ravel().tolist()), (int(v) for v in si.ravel().tolist()))) \
+        if sn.size == si.size else ("ragged", _strs(sn), _ints(si))
+    return {"treatment_mapping": (shapes[:3], tuple(t_rows)), "sample_mapping": (shapes[3:], tuple(s_rows))}
+
+
 def observe(s):
     obs = np.asarray(s.observations)
     return {
@@ -117,21 +130,13 @@ def observe(s):
         "treatment_ids": _ints(s.treatment_ids),
         "sample_ids": _ints(s.sample_ids),
         "plate_ids": _ints(s.plate_ids),
-        "treatment_mapping_names": _strs(s.treatment_mapping[0]),
-        "treatment_mapping_doses": tuple(float(x) for x in np.asarray(s.treatment_mapping[1]).tolist()),
-        "treatment_mapping_ids": _ints(s.treatment_mapping[2]),
-        "sample_mapping_names": _strs(s.sample_mapping[0]),
-        "sample_mapping_ids": _ints(s.sample_mapping[1]),
+        **_mappings(s),
     }
 
 
 def observe_space(e):
     return {
-        "treatment_mapping_names": _strs(e.treatment_mapping[0]),
-        "treatment_mapping_doses": tuple(float(x) for x in np.asarray(e.treatment_mapping[1]).tolist()),
-        "treatment_mapping_ids": _ints(e.treatment_mapping[2]),
-        "sample_mapping_names": _strs(e.sample_mapping[0]),
-        "sample_mapping_ids": _ints(e.sample_mapping[1]),
+        **_mappings(e),
         "control_name": e.control_treatment_name if isinstance(e.control_treatment_name, str) else repr(e.control_treatment_name),
         "n_unique_treatments": int(e.n_unique_treatments),
         "n_unique_samples": int(e.n_unique_samples),
@@ -385,6 +390,15 @@ def run_case(case, col, tmp, verbose=False):
         if case.get("source") is not None:
             src = build(case["source"], control)
             tm, sm = src.treatment_mapping, src.sample_mapping
+            if case.get("perm") == "reverse-ids":
+                # the same conditions, ids handed out in the opposite order (a mapping need not be sorted by name)
+                rev = lambda ids: np.where(np.asarray(ids) >= 0, np.asarray(ids).max(initial=0) - np.asarray(ids), np.asarray(ids))  # noqa: E731  (the control sentinel stays)
+                tm = (tm[0], tm[1], rev(tm[2]))
+                sm = (sm[0], rev(sm[1]))
+            elif case.get("perm") == "rotate-rows":
+                # the same assignment, listed in another order
+                tm = tuple(np.roll(np.asarray(a), 1) for a in tm)
+                sm = tuple(np.roll(np.asarray(a), 1) for a in sm)
         s = build(case["spec"], control, tm, sm, memory=case.get("memory"))
         round_trip(s, cycles, col, case, case["family"], tmp, verbose)
         # the same screen handed over in other memory layouts (column-major name / dose matrices, strided views)
@@ -455,6 +469,10 @@ def _run_item(item, col, tier, tmp):
                     case = {"kind": "screen", "family": "superset", "control": item["control"], "spec": spec,
                             "source": src, "cycles": base_cycles}
                     run_case(case, col, tmp)
+                    # mappings that are not in sorted order: ids reversed / listing rotated (every other case in the quick tier)
+                    if tier == "thorough" or j % 2 == 0:
+                        for perm in ("reverse-ids", "rotate-rows"):
+                            run_case(dict(case, perm=perm, family="superset-permuted"), col, tmp)
                     if i == item["lo"] and j == 1:
                         col.sample(case)
         return
